@@ -9,8 +9,8 @@ Definition case := SLCommon.case.
 (* model vs implementation on the routing observables: c.channels generations,
    IsSubscribed, the hub entry and its generation, NumSubscribers, the marker
    delivery count; plus connection status and "everything finished". *)
-Definition corr (c : case) : bool :=
-  match model_of c with
+Definition corr_rot (rot : bool) (c : case) : bool :=
+  match model_of rot c with
   | None => false
   | Some s =>
       let ob := cs_obs c in
@@ -18,6 +18,9 @@ Definition corr (c : case) : bool :=
       Bool.eqb (panicked s) (ob_panic ob) &&
       forallb (ch_routing_ok s) (ob_chs ob)
   end.
+
+(* the close loop's channel order is the Go runtime's choice: either order may explain the run *)
+Definition corr (c : case) : bool := corr_rot false c || corr_rot true c.
 
 (* the property on the observed settled state: a marker publication reaches the
    connection iff it reports itself subscribed, at most once, and a reported
